@@ -110,4 +110,20 @@ CLAIMED['C02'] = dict(
          'paper argument.',
     technique='deductive verification: step contracts under an interference (rely) model + invariant-preservation lemma, CBMC on mechanically lowered real code',
     design='§6 C02, §3.4')
+CLAIMED['C06'] = dict(
+    text='Kernel only (the property quantifies over schedules): rwlock::lock / unlock (sequential under its mutex; do-while wait loop and the '
+         'reader-run wake loop by the Hoare loop rule; inline asm rotate replaced by an equivalent) and qrwlock __trylock / __trylock_shared '
+         '(CAS loop under an interference model) / __unlock_unique / __unlock_shared / unlock / do_lock are lowered from /repo on every run.  '
+         'Proved: the rwlock state word is updated exactly once per successful lock and only where the conflict test is false (readers: no '
+         'writer; writer: nobody), a failed lock never touches it and restores the thread mark, a newcomer waits behind queued waiters, unlock '
+         'moves the state one step toward 0 and admits one writer or the whole run of readers at the head only when it reaches 0; every qrwlock '
+         'write is one of the four allowed transitions, try-lock results tell the truth about the transition made (failure only on an observed '
+         'reason), lock() returns 0 only after a successful try and -1 without any transition, unlock of an unlocked lock is -1/ENOLCK.  '
+         'Lemma: the allowed transitions preserve writers-exclusive / readers-shared.',
+    note=TRUST + ' NOT decided: admission after the last unlock as a liveness property, timeouts racing with admission across context '
+         'switches, memory ordering (sequentially consistent model), the shared instantiation of do_lock; the rely (other threads perform only '
+         'allowed transitions) is justified by the same step contracts for every writer (closed world); invariant-per-step => all interleavings '
+         'is a paper argument.',
+    technique='deductive verification: step contracts under an interference (rely) model + Hoare loop rule + invariant-preservation lemma, CBMC on mechanically lowered real code',
+    design='§6 C06, §3.4')
 NA = {}
